@@ -9,8 +9,9 @@
    as a recursion over the list of coarser levels.  All levels carry values over the same component
    index type X (a coarser mesh simply uses fewer indices); the space transfer operators are arbitrary
    functions (their linearity is a hypothesis of the proofs, validated per class in C11).
-   Sweeps are generic_implicit sweeps (Model/Sweep.gi_update), restriction/prolongation are
-   Model/Transfer.restrict / prolong (BaseTransfer). *)
+   Sweeps are generic_implicit sweeps (Model/Sweep.gi_update) or, with imex = true, imex_1st_order sweeps
+   (Model/Sweep.imex_update, two right-hand-side parts) on every level; restriction/prolongation are
+   Model/Transfer.restrict / prolong / prolong_f (BaseTransfer). *)
 From Coq Require Import List Arith Bool.
 From PySDC Require Import Model.Sweep Model.Transfer.
 Import ListNotations.
@@ -20,8 +21,11 @@ Section MultiLevel.
   Context {X : Type}.
   Notation V := (X -> K).
   Variable t0 : K.
+  Variable imex : bool.                         (* sweeper class of the hierarchy: generic_implicit / imex_1st_order *)
+  Definition nparts : nat := if imex then 2 else 1.
 
   Record level := { lM : nat; ldt : K; lnodes : nat -> K; lQ : nat -> nat -> K; lQI : nat -> nat -> K;
+                    lQE : nat -> nat -> K;        (* explicit preconditioner (imex only) *)
                     lfeval : K -> V -> nat -> V; lsolve : nat -> V -> K -> V -> K -> V;
                     lpre : nat; lpost : nat }.
   Record xfer := { xRs : V -> V; xPs : V -> V; xRcoll : nat -> nat -> K; xPcoll : nat -> nat -> K;
@@ -29,12 +33,14 @@ Section MultiLevel.
   Definition lstate := ((nat -> V) * (nat -> nat -> V))%type.
 
   Definition sweep1 (L : level) (tau : nat -> option V) (s : lstate) : lstate :=
-    gi_update kO kadd kmul ksub keqb (lM L) (ldt L) t0 (lnodes L) (lQ L) (lsolve L) (lfeval L) (lQI L) (fst s) (snd s) tau.
+    if imex
+    then imex_update kO kadd kmul ksub (lM L) (ldt L) t0 (lnodes L) (lQ L) (lsolve L) (lfeval L) (lQI L) (lQE L) (fst s) (snd s) tau
+    else gi_update kO kadd kmul ksub keqb (lM L) (ldt L) t0 (lnodes L) (lQ L) (lsolve L) (lfeval L) (lQI L) (fst s) (snd s) tau.
   Fixpoint sweepn (n : nat) (L : level) (tau : nat -> option V) (s : lstate) : lstate :=
     match n with 0 => s | S n' => sweepn n' L tau (sweep1 L tau s) end.
 
   Definition restrict_to (T : xfer) (Lf Lc : level) (tau : nat -> option V) (s : lstate) : @coarse K X :=
-    restrict kO kadd kmul ksub (lM Lf) (lM Lc) (ldt Lf) (ldt Lc) t0 (lnodes Lc) (lQ Lf) (lQ Lc) 1 (lfeval Lc)
+    restrict kO kadd kmul ksub (lM Lf) (lM Lc) (ldt Lf) (ldt Lc) t0 (lnodes Lc) (lQ Lf) (lQ Lc) nparts (lfeval Lc)
              (xRs T) (xRcoll T) (fst s) (snd s) tau.
   Definition prolong_from (T : xfer) (Lf Lc : level) (G : @coarse K X) (s : lstate) : lstate :=
     if xfinter T then prolong_f kadd kmul ksub (lM Lc) (xPs T) (xPcoll T) G (fst s) (snd s)
